@@ -31,6 +31,10 @@ C01_LR = H("c01::proofs::c01_lr_w1x2_r2_k3", Q, lr=True,
            what="real half_lock.rs: 1 writer thread x 2 store(), 2 reader threads (read, use, use, drop)",
            bounds="Lal-Reps K=3 rounds, 3 threads, spin bound 4, unwind 8")
 
+C01_LR_REG = H("c01::proofs_registry::c01_lr_registry_delivery_vs_unregister", Q, lr=True, timeout=3000, also=["C02"],
+    what="registry level, two real threads: thread 0 removes the first of three actions with the real unregister(), thread 1 receives the signal through the real dispatcher at any instant: no invocation of the removed action ends after unregister returned, no action is invoked after its captures were released, the removed action is released exactly once, by the removing thread and outside a delivery; the delivery runs the old or the new list, no mixture",
+    bounds="Lal-Reps K=3 rounds, 2 threads, spin bound 3, one delivery")
+
 C05_CONCRETE = H("c05::proofs::c05_q_concrete_history", Q, also=["C02"],
     what="real registry, concrete 9-step history on 2 signals: ascending ids, delivery order, stale id, cross-signal independence, handler installed with SA_RESTART|SA_SIGINFO exactly once per signal",
     bounds="fixed history; symbolic part: none besides kernel model (harness is the sanity anchor of the symbolic ones)")
@@ -68,6 +72,13 @@ C08_ENUM = [C08E("c08_enum_send_in_send", "send() interrupted by a send, 2 queue
             C08E("c08_enum_send_in_recv_full", "recv() on a full channel interrupted by a send"),
             C08E("c08_enum_send_in_send_last_slot", "send() interrupted by a send, 4 queued"),
             C08E("c08_enum_recv_in_recv", "recv() interrupted by a recv, 2 queued")]
+def C08A(name, what, tiers=Q):
+    return H("c06::proofs::" + name, tiers, timeout=2400, judge_repo_panics=True, judge_repo_unwind=True, also=["C06", "C08", "C10"], cbmc_args=CHAN_LOOPS,
+             what=what + ", the nested operation running at EVERY point of the outer operation in turn (before each queue-word load, each CAS, the cell access, and right after each successful CAS; index enumerated by a concrete loop): no panic, no waiting, tags conserved and ordered",
+             bounds="1 nested operation at a concrete point index 0..8 (the undisturbed run shows the outer operation has fewer points), no spurious failure, concrete pre-state (2 queued)")
+C08_ENUMALL = [C08A("c08_enumall_recv_in_send", "send() with a complete recv() of the consumer thread"),
+               C08A("c08_enumall_send_in_send", "send() interrupted by a send"),
+               C08A("c08_enumall_send_in_recv", "recv() interrupted by a send")]
 C09_DISP = [
     H("c09::proofs::c09_nest_delivery_inside_consumer_dispatcher", T, also=["C10"], timeout=2400,
       what="as c09_nest_delivery_inside_consumer, every delivery going through the kernel model and the registry's real dispatcher instead of calling the registered action directly",
@@ -78,6 +89,9 @@ C09_DISP = [
 C09_FRONT = H("c09::proofs::c09_nest_delivery_inside_wait_frontend", Q, also=["C10"], timeout=2400,
       what="the same with the real front-end object: the consumer is SignalsInfo::wait() itself (Signals::new, handle), a complete delivery nested at every system call / slot access of it, then a later delivery",
       bounds="NEST depth 1, 1 nested delivery + 1 earlier delivery or stale wake-up byte + 1 later delivery")
+C09_FOREVER = H("c09::proofs::c09_nest_delivery_inside_forever", Q, also=["C10", "C11"], timeout=2400,
+      what="the consumer behind forever() and the async adapters: SignalIterator::poll_signal with the blocking has_signals callback (as Forever::next does); a complete delivery nested at every system call / slot access of two consecutive polls (the one handing out an earlier signal, the one that finds its batch exhausted and goes back to wait): it never sleeps with the signal unreported and obtains it",
+      bounds="NEST depth 1, 1 nested delivery + 1 earlier delivery; 4-entry slot table")
 C09_NEST = [
     H("c09::proofs::c09_nest_delivery_inside_consumer", Q, also=["C10"], timeout=2400,
       what="a complete delivery (the exfiltrating action add_signal registered, invoked directly) nested at every system call / slot access of one consumer iteration (read, drain, scan); next iteration must not sleep with the signal unreported",
@@ -115,6 +129,7 @@ def c14(e, tiers):
 CATALOGUE = {
     "C01": [C01_LR,
             H("c01::proofs::c01_q_actions_run_inside_read_section", Q, what="registry level: every action invocation of a delivery happens inside an open read section of the data lock (the one unregister's barrier waits for); no section left open", bounds="2 actions, 2 deliveries, sequential"),
+            C01_LR_REG,
             H("c02::proofs_c01::c01_nest_delivery_inside_unregister", Q, timeout=2400, judge_repo_panics=True,
               what="the clause 'a delivery nested on the very thread that is mid-removal': <=2 complete deliveries of the signal at every shim point of unregister(id) through the real dispatcher: the removed action's captures (ghost release event of the shim Arc) are released exactly once, by the mutator and not while a delivery is on the stack, nothing is touched after its release, the surviving actions are not released, each nested delivery runs the old or the new list inside an open read section, no section stays open",
               bounds="NEST depth 1, <=2 nested deliveries; 2 actions on the signal, 1 on another"),
@@ -127,7 +142,7 @@ CATALOGUE = {
     "C02": [C05_CONCRETE,
             H("c05::proofs::c02_q_removed_id_used_again", Q, what="register, unregister(id), register, unregister(the same id again), deliver: exactly the one registered and never removed action runs", bounds="1 signal, concrete history"),
             H("c02::proofs::c02_enum_register_vs_register", Q, timeout=2400, what="register() with a complete register() + delivery of another thread at every point of it at which the writer mutex is free (point index enumerated by a concrete loop): what the observing delivery ran stays an in-order prefix of what later deliveries run", bounds="1 nested (register; deliver) at each of <=9 points"),
-            C05_UNREG_ANY,
+            C05_UNREG_ANY, C01_LR_REG,
             H("c05::proofs::c05_step_deliver", T, timeout=3000, what="one delivery from any valid state", bounds="symbolic state"),
             H("c02::proofs::c02_nest_unregister", Q, timeout=2400, what="deliveries nested at every shim point of unregister(): each runs the old or the new action list", bounds="NEST depth 1, <=2 nested deliveries"),
             H("c02::proofs::c02_nest_register", Q, timeout=2400, what="deliveries nested at every shim point of register()", bounds="NEST depth 1, <=2 nested deliveries")],
@@ -135,10 +150,15 @@ CATALOGUE = {
         H("c03::proofs::c03_control_alloc_is_seen", Q, what="positive control: an action that allocates trips the allocation flag (allocator entry points are stubbed)", bounds="-"),
         H("c03::proofs::c03_seq_builtin_actions", Q, timeout=2400, what="two deliveries through the real dispatcher into flag + self-pipe wake + conditional shutdown, pipe at any fill level: no lock/spin/alloc/free/blocking write, bounded steps", bounds="capacity 3"),
         H("c03::proofs::c03_seq_iterator_action", Q, timeout=2400, what="same for the iterator's exfiltrating action, self-pipe at any fill level", bounds="capacity 4"),
+        # the iterator's WithRawSiginfo action is Channel::send: a delivery nested in the
+        # consumer's recv() on a full buffer must not wait for the thread it interrupted
+        dict(C08_ENUM[2], also=["C06", "C08", "C10"],
+             what="built-in action of the iterator with raw siginfo = Channel::send: a send nested right after each successful CAS of a recv() on a full channel (a delivery landing inside the consumer's batch on the consuming thread) completes without waiting for the interrupted thread (CAS loops bounded by --unwindset; a spin is reported as waiting), no panic"),
+        dict(C08H("c08_q_send_in_recv_full", "recv() on a full channel interrupted by a send at any shim point (a delivery inside the consumer's batch)", T), also=["C06", "C08"]),
         H("c03::proofs::c03_lr_delivery_vs_mutator", T, lr=True, timeout=3600, what="a delivery on thread 1 while thread 0 is anywhere inside unregister()/register()", bounds="Lal-Reps K=3"),
     ],
     "C04": [
-        H("c04::proofs::c04_seq_chain_all_dispositions", Q, what="previous disposition in {default, ignore, 1-arg handler, 3-arg SA_SIGINFO handler}; deliveries before the take-over, after it, after another signal's first registration: chained exactly once, first, right convention and arguments", bounds="4 dispositions x 3 arrival instants"),
+        H("c04::proofs::c04_seq_chain_all_dispositions", Q, what="previous disposition in {default, ignore, 1-arg handler, 3-arg SA_SIGINFO handler}; deliveries before the take-over, after it, after another signal's first registration, after the last action was removed by id, after a re-registration, after unregister_signal: chained exactly once, first, right convention and arguments", bounds="4 dispositions x 6 arrival instants"),
         H("c04::proofs::c04_chain_first_registration", Q, timeout=2400, what="same with the kernel delivering at every shim point / system call of the first registration (nested on the registering thread), and of another signal's first registration", bounds="NEST depth 1, <=2+1 nested deliveries"),
         H("c04::proofs::c04_lr_chain_vs_registration", T, lr=True, timeout=3600, what="thread 0 performs the first registration of the signal (then of another signal) while thread 1 receives the signal twice at any instant", bounds="Lal-Reps K=3, 2 threads"),
     ],
@@ -150,7 +170,7 @@ CATALOGUE = {
         H("c06::proofs::c06_seq_recv_step", Q, what="one recv() from any well-formed channel state vs FIFO pop", bounds="as above"),
         H("c06::proofs::c06_new_is_empty", Q, what="Channel::new() is empty and well-formed", bounds="-"),
         C08H("c08_q_send_in_send", "nested clause of C06: send() interrupted by a complete send (both take an index from the same free list)"),
-        C08_SPURIOUS, C08_ENUM[2],
+        C08_SPURIOUS, C08_ENUM[2], C08_ENUMALL[0],
     ],
     "C07": [
         H("c07::proofs::c07_lr_reuse_k3", Q, lr=True, what="consumer takes the only queued value, producer's send reuses that cell: happens-before under declared orderings, drops", bounds="Lal-Reps K=3, 2 threads, <=1 spurious CAS failure"),
@@ -163,14 +183,14 @@ CATALOGUE = {
             C08H("c08_q_send_in_send_last_slot", "send() interrupted by a send that takes the last free slot (4 queued)"),
             C08H("c08_q_recv_in_recv", "recv() interrupted by a complete recv (second consumer), 2 values queued"),
             C08H("c08_q_recv_in_send_full", "send() on a full channel interrupted by a recv that frees a slot"),
-            C08H("c08_q_send_in_recv_full", "recv() on a full channel interrupted by a send (which finds no slot, or the one recv has just freed)", T)] + C08_ENUM,
-    "C09": C09_NEST + [C09_FRONT] + C09_DISP + [H("c09::proofs::c10_seq_counts_signal_only", T, also=["C10"], timeout=2400, what="sequential histories of deliveries and pending() batches", bounds="3 steps")],
+            C08H("c08_q_send_in_recv_full", "recv() on a full channel interrupted by a send (which finds no slot, or the one recv has just freed)", T)] + C08_ENUM + C08_ENUMALL,
+    "C09": C09_NEST + [C09_FRONT, C09_FOREVER] + C09_DISP + [H("c09::proofs::c10_seq_counts_signal_only", T, also=["C10"], timeout=2400, what="sequential histories of deliveries and pending() batches", bounds="3 steps")],
     "C10": [H("c09::proofs::c10_seq_counts_signal_only", Q, also=["C09"], timeout=2400, what="histories of deliveries and pending() batches (SignalOnly): a burst collapses to one report, nothing reported twice, yields <= deliveries", bounds="3 deliveries, 3 batches"),
             H("c09::proofs::c10_seq_raw_records_burst7", Q, also=["C09"], timeout=2400, what="WithRawSiginfo end to end (real dispatcher, exfiltrator, channel): 7 deliveries with symbolic payloads in one burst (buffer holds 5), an unwatched signal in between: every record is a faithful copy of one delivery, in delivery order, at most one per delivery, none twice", bounds="7 deliveries; si_code and 8 payload bytes symbolic per delivery; batch points concrete"),
             H("c09::proofs::c10_seq_raw_records_3_4", Q, also=["C09"], timeout=2400, what="same, a batch after 3 deliveries and one after 4 more", bounds="as above"),
             H("c09::proofs::c10_enum_raw_delivery_inside_batch", Q, also=["C09"], timeout=2400, what="WithRawSiginfo: five deliveries fill the buffer, a sixth lands at each of the first 7 cell-access / after-successful-CAS boundaries of the batch in turn (first two loads): records faithful, in order, at most one per delivery, none twice", bounds="1 nested delivery (registered action invoked directly) at a concrete boundary index 0..6; payloads symbolic"),
             H("c09::proofs::c10_seq_raw_records_6_1", T, also=["C09"], timeout=2400, what="same, a batch after 6 deliveries and one after the 7th", bounds="as above"),
-            C08_ENUM[2],
+            C08_ENUM[2], C08_ENUMALL[0],
             ] + C09_NEST[:1] + C09_DISP[:1],
     "C11": C11_NEST,
     "C12": C12_ALL,
